@@ -4,6 +4,7 @@ Cryptography enters only through the hypotheses of `Sound` (what a correct base6
 Fernet implementation gives) and, for the unique-parse theorem, ciphertext integrity (`IntCtxt`).
 -/
 import IdpyVerif.Model.Cookie
+import IdpyVerif.Model.ClientCookie
 import IdpyVerif.Proofs.LV
 import IdpyVerif.Proofs.Split
 namespace Idpy.Props.C17
@@ -202,6 +203,105 @@ end Idpy.Props.C17
 
 namespace Idpy.Props.C17
 open Idpy Idpy.LV Idpy.Cookie
+/-! ### `idpyoidc.client.cookie` (make_cookie / parse_cookie / cookie_signature): the relying-party side cookie module the
+    property's anchors name.  Same shape of statements; the signed-only format authenticates the BARE concatenation of
+    load and timestamp, so unique parse holds only between cookies whose timestamps have the same length
+    (`client_signed_unique_parse_partial`) and fails in general (`client_signed_boundary_shift`, finding F-C17-d). -/
+section ClientCookie
+open Idpy.Split
+
+structure CSound (k : ClientCookie.Crypto) : Prop where
+  unb64_b64 : ∀ x, k.unb64 (k.b64 x) = some x
+  b64_nobar : ∀ x, bar ∉ k.b64 x
+  mac_nobar : ∀ x, bar ∉ k.mac x                      -- a hex digest
+  aead      : ∀ iv m a, k.aeadDec iv (k.aeadEnc iv m a).1 (k.aeadEnc iv m a).2 a = some m
+
+/-- signed-only round trip; the load must not contain `|` -/
+theorem client_signed_roundtrip (k : ClientCookie.Crypto) (hk : CSound k) (iv load ts : Str) (ht : TsOk ts) (hbar : bar ∉ load) :
+    ClientCookie.parse k (ClientCookie.make k false iv load ts) = some (load, ts) := by
+  unfold ClientCookie.make ClientCookie.parse
+  simp only [Bool.false_eq_true, ↓reduceIte]
+  rw [split1_join1 bar _ (by simp) (by
+    intro a ha; simp at ha
+    rcases ha with rfl | rfl | rfl
+    · exact hbar
+    · exact ts_nobar ht
+    · exact hk.mac_nobar _)]
+  simp
+
+/-- encrypted round trip: any load (the load is inside the ciphertext) -/
+theorem client_enc_roundtrip (k : ClientCookie.Crypto) (hk : CSound k) (iv load ts : Str) (ht : TsOk ts) :
+    ClientCookie.parse k (ClientCookie.make k true iv load ts) = some (load, ts) := by
+  unfold ClientCookie.make ClientCookie.parse
+  simp only [↓reduceIte]
+  rw [split1_join1 bar _ (by simp) (by
+    intro a ha; simp at ha
+    rcases ha with rfl | rfl | rfl | rfl
+    · exact ts_nobar ht
+    · exact hk.b64_nobar _
+    · exact hk.b64_nobar _
+    · exact hk.b64_nobar _)]
+  simp [hk.unb64_b64, hk.aead]
+
+/-- ciphertext integrity with associated data: what decrypts was encrypted by this party, with that very timestamp -/
+def CIntCtxt (k : ClientCookie.Crypto) (G : Str → Str → Prop) : Prop :=
+  ∀ iv ct tag aad m, k.aeadDec iv ct tag aad = some m → G m aad
+
+/-- encrypted mode, unique parse: every four-part string that is accepted parses to genuine content — the clear-text
+    timestamp included (it is the associated data) -/
+theorem client_enc_unique_parse (k : ClientCookie.Crypto) (G : Str → Str → Prop) (hint : CIntCtxt k G)
+    (ts iv ct tag load' ts' : Str)
+    (hsplit : split1 bar (join1 bar [ts, iv, ct, tag]) = [ts, iv, ct, tag])
+    (h : ClientCookie.parse k (join1 bar [ts, iv, ct, tag]) = some (load', ts')) : G load' ts' := by
+  unfold ClientCookie.parse at h
+  rw [hsplit] at h
+  simp only at h
+  cases h1 : k.unb64 iv <;> cases h2 : k.unb64 ct <;> cases h3 : k.unb64 tag <;> simp [h1, h2, h3] at h
+  rename_i iv' ct' tag'
+  cases h4 : k.aeadDec iv' ct' tag' ts with
+  | none => simp [h4] at h
+  | some m =>
+    simp [h4] at h
+    obtain ⟨rfl, rfl⟩ := h
+    exact hint _ _ _ _ _ h4
+
+/-- signed-only mode, the part that holds: among cookies whose timestamps all have ONE length (ten digits until the
+    year 2286), an accepted three-part string whose tag the party produced parses to exactly that genuine content -/
+theorem client_signed_unique_parse_partial (k : ClientCookie.Crypto) (G : Str → Str → Prop)
+    (hinj : Function.Injective k.mac) (n : Nat) (clear ts sig : Str)
+    (hknown : ∃ load t, G load t ∧ t.length = n ∧ sig = k.mac (ClientCookie.macInput load t))
+    (hlen : ts.length = n)
+    (hsplit : split1 bar (join1 bar [clear, ts, sig]) = [clear, ts, sig])
+    (load' ts' : Str) (h : ClientCookie.parse k (join1 bar [clear, ts, sig]) = some (load', ts')) : G load' ts' := by
+  unfold ClientCookie.parse at h
+  rw [hsplit] at h
+  simp only at h
+  obtain ⟨load, t, hG, htl, hs⟩ := hknown
+  by_cases hv : sig = k.mac (ClientCookie.macInput clear ts)
+  · have hin : ClientCookie.macInput load t = ClientCookie.macInput clear ts := hinj (hs.symm.trans hv)
+    unfold ClientCookie.macInput at hin
+    obtain ⟨h1, h2⟩ := List.append_inj' hin (by rw [htl, hlen])
+    simp [hv] at h
+    obtain ⟨hl, ht⟩ := h
+    rw [← hl, ← ht, ← h1, ← h2]; exact hG
+  · simp [hv] at h
+
+/-- **F-C17-d** — and in general it fails: the last character of the load can be moved to the front of the timestamp.
+    For EVERY crypto instance the tag of (`hello1`, `700`) is accepted for (`hello`, `1700`): different content, no key needed -/
+theorem client_signed_boundary_shift (k : ClientCookie.Crypto) (hk : CSound k) :
+    ClientCookie.parse k (join1 bar [[104, 101, 108, 108, 111], [49, 55, 48, 48], k.mac (ClientCookie.macInput [104, 101, 108, 108, 111, 49] [55, 48, 48])])
+      = some ([104, 101, 108, 108, 111], [49, 55, 48, 48]) := by
+  unfold ClientCookie.parse
+  rw [split1_join1 bar _ (by simp) (by
+    intro a ha; simp at ha
+    rcases ha with rfl | rfl | rfl
+    · simp [bar_eq]
+    · simp [bar_eq]
+    · exact hk.mac_nobar _)]
+  simp [ClientCookie.macInput]
+
+end ClientCookie
+
 theorem toy_unshift (x : List Nat) : List.map (fun c => c - 20000) (List.map (fun c => c + 20000) x) = x := by
   induction x with
   | nil => rfl
